@@ -574,7 +574,20 @@ func (a *jwtAuthenticator) verifyTokenWithKey(
 }
 
 func (a *jwtAuthenticator) calculateCacheKey(ep *endpoint.Endpoint, renderedURL, reference string) string {
+	// a cached key has been validated the way this authenticator validates keys. Authenticators
+	// validating differently (not at all, or against another trust store) must not share it
+	policy := sha256.New()
+
+	if a.validateJWKCert {
+		policy.Write([]byte{1})
+
+		for _, cert := range a.trustStore {
+			policy.Write(cert.Raw)
+		}
+	}
+
 	digest := sha256.New()
+	digest.Write(policy.Sum(nil))
 	digest.Write(ep.Hash())
 	digest.Write(stringx.ToBytes(renderedURL))
 	digest.Write([]byte{0}) // the url and the key id must not run into each other
